@@ -16,7 +16,7 @@ for p in props:
         "replay_cmd_template": "./check %s --replay {path}" % pid,
         "engine": "coq-refinement",
         "level_claimed": {"category": s["category"], "text": s["text"], "design_ref": "DESIGN.md par. 7 (%s)" % pid},
-        "level_note": s.get("note", "Trusted base: DESIGN.md par. 9 (Coq kernel, hand-written model tied to the code by the correspondence check, extraction via ExtrOcamlBasic, OCaml driver, Rust harness, assumptions A1-A3)."),
+        "level_note": s["note"],
         "technique": s["technique"],
     })
 m = {
